@@ -104,3 +104,8 @@ for n in ["ser_fail_visit0", "ser_fail_visit1", "ser_fail_visit2", "ser_fail_vis
 for n in ["ser_nested_ok", "ser_nested_inner_fails"]:
     H(n, ["C14"], features="k_rec", sym="none (structure): a send inside a Serialize impl between two attachments of the enclosing value; the inner send completes / fails", bounds="unwind 8; nesting depth 2")
 PROPERTIES.update({k: dict(bounds="", outside="", assumptions=[]) for k in ["C14"]})
+
+# ---- error paths and close-on-exec (C11) ---------------------------------------------------------
+for n in ["err_channel_emfile", "err_send_dedicated_emfile", "err_connect_fails", "cloexec_created", "cloexec_received"]:
+    H(n, ["C11"], sym="payload bytes symbolic; which descriptor-creating call fails is concrete per harness", bounds="unwind 6..10")
+PROPERTIES.update({k: dict(bounds="", outside="", assumptions=[]) for k in ["C11"]})
